@@ -130,7 +130,8 @@ struct QExpression {
     QExpression &operator=(QExpression &&src) noexcept {
         if (this != &src) {
             if (Type == ExpressionType::SubOperation) {
-                Memory::Dispose(&SubExpressions);
+                // Release the list but keep the member alive: it may be move-assigned below.
+                SubExpressions.Reset();
             }
 
             Operation = src.Operation;
